@@ -12,7 +12,7 @@ Open Scope string_scope.
 Record exc := mk_exc {
   x_id : string;
   x_cls : option string; x_origin : string; x_meth : string; x_arg : argk; x_kind : ckind;
-  x_cont : option container; x_fitted : bool
+  x_cont : option container; x_fitted : bool; x_dt : option dkind
 }.
 
 Definition S15 := "C11-S15-score-unvalidated".
@@ -22,6 +22,7 @@ Definition S8c := "C11-S8c-gridsearch-unfitted-X".
 Definition S16 := "C11-S16-loglikelihood-lengths".
 Definition S17 := "C11-S17-fit-quantile-fitted".
 Definition S18 := "C11-S18-poisson-y-ravel".
+Definition S24 := "C11-S24-poisson-y-arithmetic-before-validation".
 Definition L1 := "C11-L1-accuracy-length-checked-after-predict".   (* benign: ValueError is raised, but only after X was used *)
 
 Definition exceptions : list exc := [
@@ -33,8 +34,22 @@ Definition exceptions : list exc := [
   (* ExpectileGAM.fit_quantile on a fitted model: (predict(X) > y).mean() before any validation of y *)
   (* PoissonGAM._exposure_to_weights: y.ravel() on the raw argument (list / tuple -> AttributeError) *)
   (* LogisticGAM.accuracy / score: check_X_y(mu, y) runs after mu = predict_mu(X) *)
-  mk_exc L1 None "LogisticGAM" "accuracy" AX KLen None true;
-  mk_exc L1 None "LogisticGAM" "score" AX KLen None true
+  (* PoissonGAM._exposure_to_weights divides the raw y by the exposure before check_y: y given as numeric strings (or with
+     None inside) dies with TypeError whatever it contains (candidate finding S24) *)
+  mk_exc S24 None "PoissonGAM" "fit" AY KNonFinite None true (Some DStr);
+  mk_exc S24 None "PoissonGAM" "fit" AY KLen None true (Some DStr);
+  mk_exc S24 None "PoissonGAM" "fit" AY KDomain None true (Some DStr);
+  mk_exc S24 None "PoissonGAM" "fit" AY KNonFinite None false (Some DStr);
+  mk_exc S24 None "PoissonGAM" "fit" AY KLen None false (Some DStr);
+  mk_exc S24 None "PoissonGAM" "fit" AY KDomain None false (Some DStr);
+  mk_exc S24 None "PoissonGAM" "gridsearch" AY KNonFinite None true (Some DStr);
+  mk_exc S24 None "PoissonGAM" "gridsearch" AY KLen None true (Some DStr);
+  mk_exc S24 None "PoissonGAM" "gridsearch" AY KDomain None true (Some DStr);
+  mk_exc S24 None "PoissonGAM" "gridsearch" AY KNonFinite None false (Some DStr);
+  mk_exc S24 None "PoissonGAM" "gridsearch" AY KLen None false (Some DStr);
+  mk_exc S24 None "PoissonGAM" "gridsearch" AY KDomain None false (Some DStr);
+  mk_exc L1 None "LogisticGAM" "accuracy" AX KLen None true None;
+  mk_exc L1 None "LogisticGAM" "score" AX KLen None true None
 ].
 
 Definition opt_match {A} (eqb : A -> A -> bool) (o : option A) (x : A) : bool :=
@@ -43,12 +58,12 @@ Definition opt_match {A} (eqb : A -> A -> bool) (o : option A) (x : A) : bool :=
 Definition exc_entry_matches (x : exc) (e : entry) : bool :=
   argk_eqb (x_arg x) (e_arg e) && (String.eqb (x_meth x) (e_meth e) && (String.eqb (x_origin x) (e_origin e)
   && opt_match String.eqb (x_cls x) (e_cls e))).
-Definition exc_matches (x : exc) (e : entry) (k : ckind) (c : container) (fitted : bool) : bool :=
-  if ckind_eqb (x_kind x) k && Bool.eqb (x_fitted x) fitted && opt_match cont_eqb (x_cont x) c
+Definition exc_matches (x : exc) (e : entry) (k : ckind) (c : container) (t : dkind) (fitted : bool) : bool :=
+  if ckind_eqb (x_kind x) k && Bool.eqb (x_fitted x) fitted && opt_match cont_eqb (x_cont x) c && opt_match dkind_eqb (x_dt x) t
   then exc_entry_matches x e else false.
 
-Definition excepted (e : entry) (k : ckind) (c : container) (fitted : bool) : bool :=
-  existsb (fun x => exc_matches x e k c fitted) exceptions.
+Definition excepted (e : entry) (k : ckind) (c : container) (t : dkind) (fitted : bool) : bool :=
+  existsb (fun x => exc_matches x e k c t fitted) exceptions.
 
 Definition all_kinds := [KNonFinite; KLen; KWidth; KDomain; KCat].
 
@@ -60,7 +75,7 @@ Definition state_ok (e : entry) (fitted : bool) : bool := fitted || e_fitting e.
 (* (written with `if` so that vm_compute evaluates the cheap tests first) *)
 Definition cell_ok (e : entry) (k : ckind) (a : adesc) (fitted skip : bool) : bool :=
   if applicable e k && a_corrupted k a && state_ok e fitted
-  then (if outcome_is_ve (run_atrace (e_actions e) a fitted skip) then true else excepted e k (a_cont a) fitted)
+  then (if outcome_is_ve (run_atrace (e_actions e) a fitted skip) then true else excepted e k (a_cont a) (a_dt a) fitted)
   else true.
 
 Definition table_ok (tr : list entry) : bool :=
@@ -71,7 +86,7 @@ Definition table_ok (tr : list entry) : bool :=
         is *not* rejected *)
 Definition exc_genuine (tr : list entry) (x : exc) : bool :=
   existsb (fun e => if exc_entry_matches x e && applicable e (x_kind x) && state_ok e (x_fitted x) then
-    existsb (fun a => if a_corrupted (x_kind x) a && opt_match cont_eqb (x_cont x) (a_cont a) then
+    existsb (fun a => if a_corrupted (x_kind x) a && (opt_match cont_eqb (x_cont x) (a_cont a) && opt_match dkind_eqb (x_dt x) (a_dt a)) then
       existsb (fun s => negb (outcome_is_ve (run_atrace (e_actions e) a (x_fitted x) s))) all_bool else false) all_adesc
     else false) tr.
 Definition exceptions_genuine (tr : list entry) : bool := forallb (exc_genuine tr) exceptions.
@@ -108,6 +123,8 @@ Definition check_case (c : c11case) : bool :=
       | RaisedAE, _ => false
       | Crashed _, OAE => true
       | Crashed _, _ => false
+      | CrashedTE _, OTypeError => true
+      | CrashedTE _, _ => false
       | Used _, o | Finished, o =>
           if a_valid (abstract (c_desc c)) && is_array (d_cont (c_desc c)) && (c_fitted c || e_fitting e)
           then match o with ORetFinite => true | _ => false end
